@@ -154,16 +154,16 @@ func check0(c Case, o *vf.Obs) error {
 
 func genCase(bigPosOnly bool) func(t *rapid.T) Case {
 	return func(t *rapid.T) Case {
-		names := gen.NamePool(gen.Uniform(t, 1, 7, "names"))
+		names := gen.Names(t, gen.Uniform(t, 1, 7, "names"))
 		if gen.Chance(t, 1, 4, "manyNames") {
-			names = gen.NamePool(9)
+			names = gen.Names(t, 9)
 		}
 		return Case{F: gen.Formula(t, gen.FormulaOpts{MaxDepth: rapid.IntRange(1, 5).Draw(t, "depth"), Names: names, MaxGroup: 9, BigGroupsPos: bigPosOnly, Groups: &[][]string{}}, 0, 1)}
 	}
 }
 
 func genShared(t *rapid.T) Case {
-	names := gen.NamePool(gen.Uniform(t, 2, 7, "names"))
+	names := gen.Names(t, gen.Uniform(t, 2, 7, "names"))
 	f := gen.Formula(t, gen.FormulaOpts{MaxDepth: rapid.IntRange(2, 5).Draw(t, "depth"), Names: names, MaxGroup: 7, Groups: &[][]string{}, Shared: &[]*oracle.F{}}, 0, 1)
 	return Case{F: f}
 }
